@@ -8,7 +8,7 @@ from __future__ import annotations
 import ast
 
 from ..absval import Undecided, linform, truth_table, Lin
-from ..core import (AnalysisError, call_name, const, dotted, is_const, kwarg, local_defs,
+from ..core import (AnalysisError, alpha, call_name, const, dotted, is_const, kwarg, local_defs,
                     norm, origin, parent_map, walk_local, arg)
 from ..pattern import pmatch, pfind
 from ..facts import (default_of, guards_of, list_literal_strs, mentions, recv_calls,
@@ -315,9 +315,12 @@ def standard_order(rep):
                 rep.ob("O1.3", "R15", fi, True, d.stmt, "thresholding of standard_order happens only under ignore_aromaticity")
                 continue
             try:
-                lf = linform(d.value, atom)
-                ok = lf == Lin({"order[0]": 1, "order[1]": -1})
-                rep.ob("O1.3", "R15", fi, ok, d.stmt, "standard_order == order[0] - order[1]", {"linear_form": lf.pretty()})
+                wr = []
+                lf = linform(d.value, atom, wr)
+                lossy_ = [w_ for w_ in wr if w_ in ("int", "round")]
+                ok = lf == Lin({"order[0]": 1, "order[1]": -1}) and not lossy_
+                rep.ob("O1.3", "R15", fi, ok, d.stmt, "standard_order == order[0] - order[1], exactly (bond orders are reals: `int()` / `round()` turn the half-order "
+                       "change of an aromatic bond, 1.5 <-> 1 or 2, into 0 and the bond drops out of the reaction centre)", {"linear_form": lf.pretty(), "wrappers": wr})
             except Undecided as exc:
                 rep.ob("O1.3", "R15", fi, False if gs == [] and isinstance(d.value, ast.Constant) else None, d.stmt,
                        f"standard_order is not the plain difference ({exc})")
@@ -460,6 +463,23 @@ def pipeline(rep):
                         firsts.add("?")
                 rep.ob("O1.6", "PIPE", fi, firsts == {rp[side]}, f"{norm(v)} <- {sorted(firsts)}",
                        f"{'reactant' if side == 0 else 'product'} SMILES is written from parameter '{rp[side]}' on every path")
+    # which hydrogens stay explicit: exactly the hydrogens of the reaction centre of the SAME ITS, the same list on both sides
+    keep = [c for c in walk_local(fi.node) if isinstance(c, ast.Call) and call_name(c) == "graph_to_smi" and kwarg(c, "preserve_atom_maps") is not None]
+    rep.need("PIPE", len(keep), 2, "graph_to_smi(..., preserve_atom_maps=...) calls in graph_to_rsmi")
+    lists = {norm(kwarg(c, "preserve_atom_maps")) for c in keep}
+    ok = len(lists) == 1
+    src = origin(defs, kwarg(keep[0], "preserve_atom_maps"))
+    m = pmatch("[$d['atom_map'] for $u, $d in $rc.nodes(data=True) if $d.get('element') == 'H']", src)
+    ok_rc = False
+    if m:
+        rcsrc = origin(defs, ast.Name(id=m["rc"], ctx=ast.Load()))
+        its_p = fi.params[2]
+        ok_rc = pmatch(f"get_rc({its_p})", rcsrc) is not None
+        built = [d_ for d_ in defs.get(its_p, []) if d_.kind == "assign"]
+        ok_rc = ok_rc and all(pmatch(f"ITSConstruction().ITSGraph({rp[0]}, {rp[1]})", d_.value) is not None for d_ in built)
+    rep.ob("O1.6", "PIPE", fi, ok and ok_rc, alpha(src, fi.node),
+           "the hydrogens kept explicit are the hydrogens of get_rc(its) for this reaction's own ITS (the one definition of the reaction centre, "
+           "including unchanged H-H bonds), and both sides receive the same list")
 
 
 def _pair_flow(rep, fi, defs, producer, consumer):
